@@ -205,22 +205,95 @@ fn gen_rule(r: &mut Rng) -> String {
     s
 }
 
-/// A seeded, valid POSIX TZ string.
-pub fn gen_posix(r: &mut Rng) -> String {
+fn fmt_posix_off(utoff: i64) -> String {
+    // POSIX offsets are written west-positive
+    let w = -utoff;
+    let a = w.abs();
+    let mut s = String::new();
+    if w < 0 {
+        s.push('-');
+    }
+    s.push_str(&format!("{}", a / 3600));
+    if a % 3600 != 0 {
+        s.push_str(&format!(":{:02}", a / 60 % 60));
+        if a % 60 != 0 {
+            s.push_str(&format!(":{:02}", a % 60));
+        }
+    }
+    s
+}
+
+fn gen_posix_once(r: &mut Rng) -> String {
     let mut s = gen_abbr(r);
-    s.push_str(&gen_hms(r, 24, true));
+    let std_s = gen_hms(r, 24, true);
+    s.push_str(&std_s);
     if r.chance(1, 6) {
         return s;
     }
     s.push_str(&gen_abbr(r));
     if r.chance(1, 2) {
-        s.push_str(&gen_hms(r, 24, true));
+        // explicit DST offset: std + delta, |delta| <= 4 h (real-world maximum
+        // is 2 h); larger jumps make gap and fold windows overlap
+        let std_utoff = tzref::parse_posix(&format!("AAA{}", std_s)).map(|p| p.std_utoff as i64).unwrap_or(0);
+        let delta = match r.below(10) {
+            0 => 1800,
+            1 => 7200,
+            2 => 1200,
+            3 => -3600,
+            4 => 5400,
+            5 => 3 * 3600,
+            6 => {
+                let d = r.range(-4 * 3600, 4 * 3600);
+                if d == 0 {
+                    3600
+                } else {
+                    d
+                }
+            }
+            _ => 3600,
+        };
+        let dst = (std_utoff + delta).clamp(-(24 * 3600 + 59 * 60 + 59), 24 * 3600 + 59 * 60 + 59);
+        s.push_str(&fmt_posix_off(dst));
     }
     s.push(',');
     s.push_str(&gen_rule(r));
     s.push(',');
     s.push_str(&gen_rule(r));
     s
+}
+
+/// A seeded, valid POSIX TZ string. Strings whose DST start and end come
+/// closer than 3 days to each other (in any of 28 consecutive years) are
+/// rejected: their gap and fold windows can overlap, which is outside the
+/// space this framework explores (stated in the evidence rule).
+pub fn gen_posix(r: &mut Rng) -> String {
+    for _ in 0..200 {
+        let s = gen_posix_once(r);
+        let Ok(p) = tzref::parse_posix(&s) else { continue };
+        if p.dst.is_none() {
+            return s;
+        }
+        if p.dst.as_ref().map(|d| d.utoff == p.std_utoff).unwrap_or(false) {
+            continue;
+        }
+        let mut ok = true;
+        let mut ev: Vec<i64> = Vec::new();
+        for y in 1999..2029 {
+            let (a, b) = p.events(y).unwrap();
+            ev.push(a);
+            ev.push(b);
+        }
+        ev.sort();
+        for w in ev.windows(2) {
+            if w[1] - w[0] < 3 * 86400 {
+                ok = false;
+            }
+        }
+        if ok {
+            return s;
+        }
+    }
+    "EST5EDT,M3.2.0,M11.1.0".to_string()
 }
 
 pub const FIXED_POSIX: &[&str] = &[
@@ -238,7 +311,7 @@ pub const FIXED_POSIX: &[&str] = &[
     "IST-2IDT,M3.4.4/26,M10.5.0",
     "EET-2EEST,M3.5.0/3,M10.5.0/4",
     "AAA0:00:01BBB-0:00:01,M1.1.0/0,M12.5.6/167:59:59",
-    "ABC24:59:59DEF-24:59:59,J60/-167:59:59,J59/167",
+    "ABC24:59:59DEF22:59:59,J60/-167:59:59,J59/167",
 ];
 
 /// Instants of interest for a zone: around every explicit transition and the
